@@ -770,9 +770,20 @@ def rule_multisig(ctx, repo, it):
     top = [norm(s) for s in lp.body]
     r.check('ikey += 1' in top and 'keys_count -= 1' in top, 'key-consumed', common.site_of(ms, lp), 'ikey += 1 and keys_count -= 1 on every iteration',
             'the key cursor is not advanced unconditionally on every iteration (statements at loop level: %s): a key that matched could satisfy the next signature too' % top)
-    iff = [s for s in lp.body if isinstance(s, ast.If) and norm(s.test).startswith('_CheckSig(')]
-    ok = len(iff) == 1 and [norm(x) for x in iff[0].body] == ['isig += 1', 'sigs_count -= 1'] and not iff[0].orelse
-    r.check(ok, 'sig-consumed-on-match', common.site_of(ms, lp), 'signature cursor advances only on a match', 'the signature cursor handling is %s' % ([norm(x) for x in iff[0].body] if iff else None))
+    def is_checksig_test(t):
+        # the call itself, or a local holding its result
+        if norm(t).startswith('_CheckSig('):
+            return True
+        if isinstance(t, ast.Name):
+            ds = [x for x in lp.body if isinstance(x, ast.Assign) and len(x.targets) == 1 and norm(x.targets[0]) == t.id]
+            return len(ds) == 1 and norm(ds[0].value).startswith('_CheckSig(')
+        return False
+    iff = [s for s in lp.body if isinstance(s, ast.If) and is_checksig_test(s.test)]
+    if not iff:
+        r.undecided('sig-consumed-on-match', common.site_of(ms, lp), 'no `if _CheckSig(...)` at loop level')
+    else:
+        ok = len(iff) == 1 and sorted(norm(x) for x in iff[0].body) == ['isig += 1', 'sigs_count -= 1'] and not iff[0].orelse
+        r.check(ok, 'sig-consumed-on-match', common.site_of(ms, lp), 'signature cursor advances only on a match', 'the signature cursor handling is %s' % ([norm(x) for x in iff[0].body] if iff else None))
     fail = [s for s in lp.body if isinstance(s, ast.If) and equiv_folded(s.test, repo, ms.module, 'sigs_count > keys_count')]
     r.check(len(fail) == 1 and any(norm(x) == 'success = False' for x in fail[0].body), 'fail-when-too-few-keys', common.site_of(ms, lp), 'fails when sigs_count > keys_count',
             'the loop does not fail when more signatures than keys remain')
@@ -780,4 +791,13 @@ def rule_multisig(ctx, repo, it):
     for c in common.iter_calls(lp):
         if norm(c.func) == '_CheckSig':
             args = [norm(a) for a in c.args]
-    r.check(args is not None and args[:2] == ['sig', 'pubkey'], 'checksig-args', common.site_of(ms, lp), '_CheckSig(sig, pubkey, ...)', '_CheckSig is called with %s' % args)
+    # the operands: the signature at the signature cursor, the key at the key cursor (directly or through locals)
+    def operand(a):
+        if isinstance(a, ast.Name):
+            ds = [x for x in lp.body if isinstance(x, ast.Assign) and len(x.targets) == 1 and norm(x.targets[0]) == a.id]
+            if len(ds) == 1:
+                return norm(ds[0].value)
+        return norm(a)
+    call_ = [c for c in common.iter_calls(lp) if norm(c.func) == '_CheckSig']
+    got_ = [operand(a) for a in call_[0].args[:2]] if call_ else None
+    r.check(got_ == ['stack[-isig]', 'stack[-ikey]'], 'checksig-args', common.site_of(ms, lp), '_CheckSig(stack[-isig], stack[-ikey], ...)', '_CheckSig is called with %s' % (got_ or args))
